@@ -51,6 +51,7 @@ class Outcome:
     errors: list = field(default_factory=list)
     failure_cases: object = None
     error_counts: object = None
+    ctx_leak: object = None   # (config before, config after) when validate changed it
 
     @property
     def accepted(self):
@@ -85,7 +86,80 @@ def _one(err):
               cells, scalar, type(err.schema).__name__)
 
 
+def config_state():
+    """The configuration a validation running *now in this thread* would see:
+    the thread-local context configuration and the process-wide one."""
+    from pandera.config import get_config_context, get_config_global
+
+    def tup(c):
+        return (c.validation_enabled, getattr(c.validation_depth, "name", c.validation_depth),
+                c.cache_dataframe, c.keep_cached_dataframe)
+    return {"context": tup(get_config_context(validation_depth_default=None)),
+            "global": tup(get_config_global())}
+
+
+# Config-context monitor: every validate call of the harness is bracketed by
+# two reads of the configuration.  A validate that returns (or raises) and
+# leaves another configuration behind than it found changes the meaning of
+# every later validation of the thread.  The observations are queued here and
+# drained by the check that made the call (``drain_context_leaks``).
+CONTEXT_LEAKS = []
+MONITORED = {"n": 0}
+
+
+def drain_context_leaks():
+    out = list(CONTEXT_LEAKS)
+    del CONTEXT_LEAKS[:]
+    return out
+
+
 def run_validate(schema, obj, **kw):
+    try:
+        before = config_state()
+    except Exception:      # pandera.config not importable in this form: no monitor
+        before = None
+    out = _run_validate(schema, obj, **kw)
+    if before is not None:
+        after = config_state()
+        MONITORED["n"] += 1
+        if after != before:
+            out.ctx_leak = {"before": before, "after": after,
+                            "schema": type(schema).__name__, "object": type(obj).__name__,
+                            "outcome": out.kind, "kwargs": {k: repr(v) for k, v in kw.items()}}
+            if len(CONTEXT_LEAKS) < 50:
+                CONTEXT_LEAKS.append(out.ctx_leak)
+    return out
+
+
+def pristine(fn, *a, **kw):
+    """Run ``fn`` in a fresh thread and hand back its result / exception.
+
+    pandera's context configuration is thread-local: a fresh thread starts from
+    the process-wide configuration, whatever earlier validations (or the
+    validation under test) left behind in the long-lived calling thread.  The
+    reference side of an oracle (re-validations, the explicit sub-frame, ...)
+    runs here; the validation under test stays in the calling thread."""
+    import threading
+    box = {}
+
+    def target():
+        try:
+            box["r"] = fn(*a, **kw)
+        except BaseException as e:  # noqa: BLE001
+            box["e"] = e
+    t = threading.Thread(target=target, name="pvm-pristine")
+    t.start()
+    t.join()
+    if "e" in box:
+        raise box["e"]
+    return box["r"]
+
+
+def run_validate_pristine(schema, obj, **kw):
+    return pristine(run_validate, schema, obj, **kw)
+
+
+def _run_validate(schema, obj, **kw):
     import pandera.errors as pe
     try:
         res = schema.validate(obj, **kw)
